@@ -26,7 +26,7 @@ const rule = "case = a registration program: a tree of Group(path, handlers, bod
 var assumptions = []string{
 	"AutoHead is documented for Get(): while it is on, GET is declared through Get / Combo.Get / Any only (whether Route(\"GET\") and Routes(\"GET\") should add HEAD is not stated)",
 	"route paths of one program are distinct, so every registration is valid",
-	"a declaration that stands for several flat registrations and is refused half way stands as far as its flat expansion got and no further (Get under AutoHead = GET, then HEAD): the property says 'exactly like the flat list', and a flat list is registered entry by entry",
+	"a declaration that stands for several flat registrations and is refused half way leaves standing at most what its flat expansion had registered before the refused entry (Get under AutoHead = GET, then HEAD) - all of it, or nothing of it if the implementation takes a refused declaration back as a whole; it never leaves something the flat expansion did not reach, and what was there before stays",
 	"pieces that are each harmless but concatenate to a route the router must refuse (C08) are refused like the flat registration, and the enclosing scope is restored when a group is left through that panic",
 }
 
@@ -441,7 +441,7 @@ func checkCase(c Case) (out evid.Outcome) {
 			pRan, qRan = "", ""
 			p.f.ServeHTTP(rt.NewSpy(), rt.NewRequest(probe[0], probe[1], nil))
 			q.f.ServeHTTP(rt.NewSpy(), rt.NewRequest(probe[0], probe[1], nil))
-			if pRan != qRan {
+			if pRan != qRan && !(pRan == "" && qRan == "commong") {
 				return evid.Fail("refused-declaration-residue", "after Combo(\"/dc\", common).Get(g).Post(b) was refused at Post (POST /dc was taken): %s %s runs %q, after the flat expansion it runs %q; program %s", probe[0], probe[1], pRan, qRan, js(c))
 			}
 		}
@@ -483,7 +483,11 @@ func checkCase(c Case) (out evid.Outcome) {
 			pRan, qRan = "", ""
 			p.f.ServeHTTP(rt.NewSpy(), rt.NewRequest(m, "/dg", nil))
 			q.f.ServeHTTP(rt.NewSpy(), rt.NewRequest(m, "/dg", nil))
-			if pRan != qRan {
+			if pRan != qRan && !(pRan == "" && qRan == "b") {
+				// (what the refused declaration had registered before it was refused
+				// may stand, as after the flat expansion, or be taken back as a whole;
+				// what it must not do is leave something the flat expansion never
+				// reached, or touch the route that was there before)
 				return evid.Fail("refused-declaration-residue", "%s /dg declared first, then Get(\"/dg\") under AutoHead (refused): %s /dg runs %q, after the flat expansion [GET /dg, HEAD /dg] (refused at its first taken entry) it runs %q; program %s", first, m, pRan, qRan, js(c))
 			}
 		}
